@@ -353,12 +353,12 @@ def run(repo, chk):
         p = sre.parse(op_rx[0])
         def is_ws_star(item, minimum):
             op, av = item
-            return str(op) == "MAX_REPEAT" and av[0] == minimum and len(av[2]) == 1 and str(av[2][0]) == "(IN, [(CATEGORY, CATEGORY_SPACE)])"
+            return str(op) == "MAX_REPEAT" and av[0] == minimum and str(av[1]) == "MAXREPEAT" and len(av[2]) == 1 and str(av[2][0]) == "(IN, [(CATEGORY, CATEGORY_SPACE)])"
         if len(p) == 1 and str(p[0][0]) == "BRANCH":
             alts = p[0][1][1]
             ok = len(alts) == 2 and is_ws_star(alts[0][0], 0) and is_ws_star(alts[0][-1], 0) and len(alts[1]) == 1 and is_ws_star(alts[1][0], 1)
     chk.ob("R15.4", "selector.parser:lexer:operator-whitespace", ok, "ptera/selector.py (parser = ...)",
-           "every operator alternative is wrapped by \\s* on both sides and bare whitespace is the juxtaposition operator")
+           "every operator alternative is wrapped by an unbounded \\s* on both sides (any amount of spacing or line breaks around an operator belongs to it) and bare whitespace is the juxtaposition operator")
     tk = repo.func("opparse.Token.__init__")
     chk.ob("R15.4", "opparse.Token.__init__:value-stripped", any(isinstance(n, ast.Assign) and is_self_attr(n.targets[0], "value")
            and norm(n.value) == "value.strip()" for n in walk_local(tk.node)), tk.where, "token values are stripped, so spacing never reaches operator keys")
